@@ -2792,3 +2792,623 @@ Proof.
   - eapply H_is_jacobian_pos2d_l_1; eassumption.
 Qed.
 
+
+(** * Part E: perturb_pva followed by correct_pva restores the state to first order (C05 c)
+
+    The output-space error is written E = T_out(pva) y for an arbitrary internal vector y (for cos pitch <> 0
+    this is every E, with y = T_inv E, by [to_output_invertible]); the state is perturbed by e E and corrected
+    with e y.  T_out is evaluated at the unperturbed state. *)
+
+(** component [f] of sim.perturb_pva(pva, e * E), E = T_out(pva) y *)
+Definition pert3 (f : R -> R -> R -> R -> R -> R -> R -> R -> R -> R -> R -> R -> R -> R -> R -> R -> R -> R -> R)
+  (lat lon alt VN VE VD roll pitch heading y0 y1 y2 y3 y4 y5 y6 y7 y8 e : R) : R :=
+  let E := mvec 9 (Tout3 lat lon alt VN VE VD roll pitch heading) (vec9 y0 y1 y2 y3 y4 y5 y6 y7 y8) in
+  f lat lon alt VN VE VD roll pitch heading (e * E 0%nat) (e * E 1%nat) (e * E 2%nat) (e * E 3%nat)
+    (e * E 4%nat) (e * E 5%nat) (e * E 6%nat) (e * E 7%nat) (e * E 8%nat).
+
+(** component [c] of correct_pva(perturb_pva(pva, e T y), e y) *)
+Definition pert_corr3 (c : R -> R -> R -> R -> R -> R -> R -> R -> R -> R -> R -> R -> R -> R -> R -> R -> R -> R -> R)
+  (lat lon alt VN VE VD roll pitch heading y0 y1 y2 y3 y4 y5 y6 y7 y8 e : R) : R :=
+  c (pert3 perturb_pva_lat lat lon alt VN VE VD roll pitch heading y0 y1 y2 y3 y4 y5 y6 y7 y8 e)
+    (pert3 perturb_pva_lon lat lon alt VN VE VD roll pitch heading y0 y1 y2 y3 y4 y5 y6 y7 y8 e)
+    (pert3 perturb_pva_alt lat lon alt VN VE VD roll pitch heading y0 y1 y2 y3 y4 y5 y6 y7 y8 e)
+    (pert3 perturb_pva_VN lat lon alt VN VE VD roll pitch heading y0 y1 y2 y3 y4 y5 y6 y7 y8 e)
+    (pert3 perturb_pva_VE lat lon alt VN VE VD roll pitch heading y0 y1 y2 y3 y4 y5 y6 y7 y8 e)
+    (pert3 perturb_pva_VD lat lon alt VN VE VD roll pitch heading y0 y1 y2 y3 y4 y5 y6 y7 y8 e)
+    (pert3 perturb_pva_roll lat lon alt VN VE VD roll pitch heading y0 y1 y2 y3 y4 y5 y6 y7 y8 e)
+    (pert3 perturb_pva_pitch lat lon alt VN VE VD roll pitch heading y0 y1 y2 y3 y4 y5 y6 y7 y8 e)
+    (pert3 perturb_pva_heading lat lon alt VN VE VD roll pitch heading y0 y1 y2 y3 y4 y5 y6 y7 y8 e)
+    (e * y0) (e * y1) (e * y2) (e * y3) (e * y4) (e * y5) (e * y6) (e * y7) (e * y8).
+
+(** component [d] of compute_state_difference(correct_pva(perturb_pva(pva, e T y), e y), pva) *)
+Definition restore3
+  (d : R -> R -> R -> R -> R -> R -> R -> R -> R -> R -> R -> R -> R -> R -> R -> R -> R -> R -> R)
+  (lat lon alt VN VE VD roll pitch heading y0 y1 y2 y3 y4 y5 y6 y7 y8 e : R) : R :=
+  d (pert_corr3 correct3d_lat lat lon alt VN VE VD roll pitch heading y0 y1 y2 y3 y4 y5 y6 y7 y8 e)
+    (pert_corr3 correct3d_lon lat lon alt VN VE VD roll pitch heading y0 y1 y2 y3 y4 y5 y6 y7 y8 e)
+    (pert_corr3 correct3d_alt lat lon alt VN VE VD roll pitch heading y0 y1 y2 y3 y4 y5 y6 y7 y8 e)
+    (pert_corr3 correct3d_VN lat lon alt VN VE VD roll pitch heading y0 y1 y2 y3 y4 y5 y6 y7 y8 e)
+    (pert_corr3 correct3d_VE lat lon alt VN VE VD roll pitch heading y0 y1 y2 y3 y4 y5 y6 y7 y8 e)
+    (pert_corr3 correct3d_VD lat lon alt VN VE VD roll pitch heading y0 y1 y2 y3 y4 y5 y6 y7 y8 e)
+    (pert_corr3 correct3d_roll lat lon alt VN VE VD roll pitch heading y0 y1 y2 y3 y4 y5 y6 y7 y8 e)
+    (pert_corr3 correct3d_pitch lat lon alt VN VE VD roll pitch heading y0 y1 y2 y3 y4 y5 y6 y7 y8 e)
+    (pert_corr3 correct3d_heading lat lon alt VN VE VD roll pitch heading y0 y1 y2 y3 y4 y5 y6 y7 y8 e)
+    lat lon alt VN VE VD roll pitch heading.
+
+Lemma is_derive_minus_const (f : R -> R) c t l :
+  is_derive f t l -> is_derive (fun e => f e - c) t l.
+Proof.
+  intro H. auto_derive; [exists l; exact H|]. derive_val H. ring.
+Qed.
+
+Section Restore3D.
+Variables lat lon alt VN VE VD roll pitch heading : R.
+Variables y0 y1 y2 y3 y4 y5 y6 y7 y8 : R.
+Hypothesis Hlat : -90 < lat < 90.
+Hypothesis Halt : -1000000 <= alt.
+Hypothesis Hroll : -180 < roll < 180.
+Hypothesis Hpitch : -90 < pitch < 90.
+Hypothesis Hheading : -180 < heading < 180.
+
+Let PC (c : R -> R -> R -> R -> R -> R -> R -> R -> R -> R -> R -> R -> R -> R -> R -> R -> R -> R -> R) :=
+  pert_corr3 c lat lon alt VN VE VD roll pitch heading y0 y1 y2 y3 y4 y5 y6 y7 y8.
+Let RS (d : R -> R -> R -> R -> R -> R -> R -> R -> R -> R -> R -> R -> R -> R -> R -> R -> R -> R -> R) :=
+  restore3 d lat lon alt VN VE VD roll pitch heading y0 y1 y2 y3 y4 y5 y6 y7 y8.
+
+Ltac unfE := cbv [mvec sumN Tout3 vec9]; autounfold with errstate_mat; autounfold with to_output3d_db.
+Ltac unfP := unfold PC, pert_corr3, pert3, perturb_pva_lat, perturb_pva_lon, perturb_pva_alt, perturb_pva_VN,
+  perturb_pva_VE, perturb_pva_VD, perturb_pva_roll, perturb_pva_pitch, perturb_pva_heading; cbv zeta.
+
+Lemma pc3_at0 :
+  PC correct3d_lat 0 = lat /\ PC correct3d_lon 0 = lon /\ PC correct3d_alt 0 = alt /\
+  PC correct3d_VN 0 = VN /\ PC correct3d_VE 0 = VE /\ PC correct3d_VD 0 = VD /\
+  PC correct3d_roll 0 = roll /\ PC correct3d_pitch 0 = pitch /\ PC correct3d_heading 0 = heading.
+Proof.
+  unfP. unfold Rdiv. rewrite !Rmult_0_l, !Rplus_0_r, !Rminus_0_r.
+  exact (proj1 (correct_zero_is_identity lat lon alt VN VE VD roll pitch heading Hroll Hpitch Hheading)).
+Qed.
+
+Lemma pc3_VN : is_derive (PC correct3d_VN) 0 0.
+Proof.
+  unfP. unfold correct3d_VN. ray_facts y6 y7 y8. to_ray y6 y7 y8.
+  auto_derive; [ray_ex|]. ray_vals. unfE. ring.
+Qed.
+
+Lemma pc3_VE : is_derive (PC correct3d_VE) 0 0.
+Proof.
+  unfP. unfold correct3d_VE. ray_facts y6 y7 y8. to_ray y6 y7 y8.
+  auto_derive; [ray_ex|]. ray_vals. unfE. ring.
+Qed.
+
+Lemma pc3_VD : is_derive (PC correct3d_VD) 0 0.
+Proof.
+  unfP. unfold correct3d_VD. ray_facts y6 y7 y8. to_ray y6 y7 y8.
+  auto_derive; [ray_ex|]. ray_vals. unfE. ring.
+Qed.
+
+Lemma pc3_alt : is_derive (PC correct3d_alt) 0 0.
+Proof.
+  unfP. unfold correct3d_alt. auto_derive; [exact I|]. unfE. ring.
+Qed.
+
+Lemma pc3_roll : is_derive (PC correct3d_roll) 0 0.
+Proof.
+  unfP. unfold correct3d_roll, euler_roll. autounfold with correct3d_db.
+  ray_facts y6 y7 y8.
+  pose proof (cos_d2r_pos pitch Hpitch) as Hcp.
+  try set (E6 := mvec 9 _ _ 6%nat). try set (E7 := mvec 9 _ _ 7%nat). try set (E8 := mvec 9 _ _ 8%nat).
+  eapply is_derive_atan2_deg.
+  - to_ray y6 y7 y8. auto_derive; [ray_ex|]. reflexivity.
+  - to_ray y6 y7 y8. auto_derive; [ray_ex|]. reflexivity.
+  - cbv beta. ray_vals. rewrite !Rmult_0_l, !Rplus_0_r.
+    destruct (polar_offcut _ (d2r_in_pi roll Hroll)) as [Hc|Hs]; [left|right]; nra.
+  - cbv beta. ray_vals. rewrite !Rmult_0_l, !Rplus_0_r. try subst E6; try subst E7; try subst E8. unfE.
+    trig_abbrev roll pitch heading. pose proof PI_neq0 as Hpi.
+    match goal with |- _ = _ / ?D * _ => replace D with (cp * cp) by (ring [Hr]) end.
+    field_simplify_eq; [ring [Hr Hp Hh] | split; [assumption | lra]].
+Qed.
+
+Lemma pc3_heading : is_derive (PC correct3d_heading) 0 0.
+Proof.
+  unfP. unfold correct3d_heading, euler_heading. autounfold with correct3d_db.
+  ray_facts y6 y7 y8.
+  pose proof (cos_d2r_pos pitch Hpitch) as Hcp.
+  try set (E6 := mvec 9 _ _ 6%nat). try set (E7 := mvec 9 _ _ 7%nat). try set (E8 := mvec 9 _ _ 8%nat).
+  eapply is_derive_atan2_deg.
+  - to_ray y6 y7 y8. auto_derive; [ray_ex|]. reflexivity.
+  - to_ray y6 y7 y8. auto_derive; [ray_ex|]. reflexivity.
+  - cbv beta. ray_vals. rewrite !Rmult_0_l, !Rplus_0_r.
+    destruct (polar_offcut _ (d2r_in_pi heading Hheading)) as [Hc|Hs]; [left|right]; nra.
+  - cbv beta. ray_vals. rewrite !Rmult_0_l, !Rplus_0_r. try subst E6; try subst E7; try subst E8. unfE.
+    trig_abbrev roll pitch heading. pose proof PI_neq0 as Hpi.
+    match goal with |- _ = _ / ?D * _ => replace D with (cp * cp) by (ring [Hh]) end.
+    field_simplify_eq; [ring [Hr Hp Hh] | split; [assumption | lra]].
+Qed.
+
+Lemma pc3_pitch : is_derive (PC correct3d_pitch) 0 0.
+Proof.
+  unfP. unfold correct3d_pitch, euler_pitch. autounfold with correct3d_db.
+  ray_facts y6 y7 y8.
+  pose proof (cos_d2r_pos pitch Hpitch) as Hcp.
+  try set (E6 := mvec 9 _ _ 6%nat). try set (E7 := mvec 9 _ _ 7%nat). try set (E8 := mvec 9 _ _ 8%nat).
+  eapply is_derive_atan2_deg.
+  - to_ray y6 y7 y8. auto_derive; [ray_ex|]. reflexivity.
+  - to_ray y6 y7 y8.
+    auto_derive; [ray_ex; ray_vals; rewrite !Rmult_0_l, !Rplus_0_r; trig_abbrev roll pitch heading;
+                  match goal with |- 0 < ?E => replace E with (cp * cp) by (ring [Hr]) end; nra
+                 | reflexivity].
+  - cbv beta. ray_vals. rewrite !Rmult_0_l, !Rplus_0_r. left. apply sqrt_lt_R0.
+    trig_abbrev roll pitch heading.
+    match goal with |- 0 < ?E => replace E with (cp * cp) by (ring [Hr]) end; nra.
+  - cbv beta. ray_vals. rewrite !Rmult_0_l, !Rplus_0_r. try subst E6; try subst E7; try subst E8. unfE.
+    trig_abbrev roll pitch heading. pose proof PI_neq0 as Hpi.
+    repeat match goal with |- context [sqrt ?E] =>
+      replace (sqrt E) with cp by
+        (symmetry; replace E with (cp * cp) by (ring [Hr]); apply sqrt_square; lra) end.
+    match goal with |- _ = _ / ?D * _ => replace D with 1 by (ring [Hp]) end.
+    field_simplify_eq; [ring [Hr Hp Hh] | split; [assumption | lra]].
+Qed.
+
+(** *** compute_state_difference(correct_pva(perturb_pva(pva, e T y), e y), pva): derivative 0 at e = 0 *)
+
+Lemma rs3_VN : is_derive (RS state_diff_VN) 0 0.
+Proof. unfold RS, restore3, state_diff_VN. apply is_derive_minus_const. exact pc3_VN. Qed.
+
+Lemma rs3_VE : is_derive (RS state_diff_VE) 0 0.
+Proof. unfold RS, restore3, state_diff_VE. apply is_derive_minus_const. exact pc3_VE. Qed.
+
+Lemma rs3_VD : is_derive (RS state_diff_VD) 0 0.
+Proof. unfold RS, restore3, state_diff_VD. apply is_derive_minus_const. exact pc3_VD. Qed.
+
+Lemma rs3_down : is_derive (RS state_diff_down) 0 0.
+Proof.
+  unfold RS, restore3, state_diff_down. pose proof pc3_alt as H. unfold PC in H.
+  auto_derive; [eexists; exact H|]. derive_val H. ring.
+Qed.
+
+Lemma rs3_roll : is_derive (RS state_diff_roll) 0 0.
+Proof.
+  unfold RS, restore3, state_diff_roll.
+  destruct pc3_at0 as [_ [_ [_ [_ [_ [_ [Hr0 [Hp0 Hh0]]]]]]]]. unfold PC in *.
+  apply (is_derive_wrap180 (fun e => _ e - roll)).
+  - apply is_derive_minus_const. exact pc3_roll.
+  - rewrite Hr0. ring.
+Qed.
+
+Lemma rs3_pitch : is_derive (RS state_diff_pitch) 0 0.
+Proof.
+  unfold RS, restore3, state_diff_pitch.
+  destruct pc3_at0 as [_ [_ [_ [_ [_ [_ [Hr0 [Hp0 Hh0]]]]]]]]. unfold PC in *.
+  apply (is_derive_wrap180 (fun e => _ e - pitch)).
+  - apply is_derive_minus_const. exact pc3_pitch.
+  - rewrite Hp0. ring.
+Qed.
+
+Lemma rs3_heading : is_derive (RS state_diff_heading) 0 0.
+Proof.
+  unfold RS, restore3, state_diff_heading.
+  destruct pc3_at0 as [_ [_ [_ [_ [_ [_ [Hr0 [Hp0 Hh0]]]]]]]]. unfold PC in *.
+  apply (is_derive_wrap180 (fun e => _ e - heading)).
+  - apply is_derive_minus_const. exact pc3_heading.
+  - rewrite Hh0. ring.
+Qed.
+
+Ltac clean0E :=
+  repeat match goal with |- context [lat + 0 * ?E0 / ?K0 * (180 / PI)] =>
+    replace (lat + 0 * E0 / K0 * (180 / PI)) with lat by (unfold Rdiv; ring) end;
+  repeat match goal with |- context [lat + 0 * ?E0 * / ?K0 * (180 / PI)] =>
+    replace (lat + 0 * E0 * / K0 * (180 / PI)) with lat by (unfold Rdiv; ring) end;
+  repeat match goal with |- context [alt - 0 * ?E2] => replace (alt - 0 * E2) with alt by ring end;
+  repeat match goal with |- context [alt + - (0 * ?E2)] => replace (alt + - (0 * E2)) with alt by ring end;
+  repeat match goal with |- context [lat + - (0 * y0) / ?K0 * (180 / PI)] =>
+    replace (lat + - (0 * y0) / K0 * (180 / PI)) with lat by (unfold Rdiv; ring) end;
+  repeat match goal with |- context [lat + - (0 * y0) * / ?K0 * (180 / PI)] =>
+    replace (lat + - (0 * y0) * / K0 * (180 / PI)) with lat by (unfold Rdiv; ring) end;
+  repeat match goal with |- context [alt - - (0 * y2)] => replace (alt - - (0 * y2)) with alt by ring end;
+  repeat match goal with |- context [alt + - - (0 * y2)] => replace (alt + - - (0 * y2)) with alt by ring end.
+
+Lemma rs3_north : is_derive (RS state_diff_north) 0 0.
+Proof.
+  unfold RS, restore3, state_diff_north. unfold pert_corr3, pert3. cbv zeta.
+  unfold correct3d_lat, correct3d_alt, perturb_pva_lat, perturb_pva_alt.
+  pose proof (rn_pos (lat * (PI/180)) alt Halt) as Hrn.
+  set (E0 := mvec 9 _ _ 0%nat). set (E2 := mvec 9 _ _ 2%nat).
+  match goal with |- is_derive (fun e => (lat + e * E0 / ?K0 * (180 / PI) + - (e * y0) / @?K1 e * (180 / PI) - lat) * @?Q e) 0 _ =>
+    apply (is_derive_ext (fun e => e * ((E0 * / K0 * (180 / PI) - y0 * / K1 e * (180 / PI)) * Q e)));
+    [ intro e; cbv beta; unfold Rdiv; eqR; ring | apply is_derive_e_times ]
+  end.
+  - autounfold with state_diff_db correct3d_db perturb_pva_db. auto_derive.
+    clean0E. rewrite ?Rplus_0_r. clean0E.
+    splits; try exact I; try (apply Rgt_not_eq); try (exact (W_pos' _)); try (exact (sqrtW_pos _));
+      exact Hrn.
+  - cbv beta. clean0E. rewrite ?Rplus_0_r. clean0E.
+    autounfold with state_diff_db correct3d_db perturb_pva_db.
+    subst E0 E2. unfE. ring.
+Qed.
+
+Lemma rs3_east : is_derive (RS state_diff_east) 0 0.
+Proof.
+  unfold RS, restore3, state_diff_east. unfold pert_corr3, pert3. cbv zeta.
+  unfold correct3d_lat, correct3d_lon, correct3d_alt, perturb_pva_lat, perturb_pva_lon, perturb_pva_alt.
+  pose proof (rn_pos (lat * (PI/180)) alt Halt) as Hrn.
+  pose proof (re_pos (lat * (PI/180)) alt Halt) as Hre.
+  pose proof (cos_d2r_pos lat Hlat) as Hcos.
+  assert (Hs : sqrt (1 - sin (lat * (PI/180)) * sin (lat * (PI/180))) = cos (lat * (PI/180)))
+    by (apply sqrt_1msin2; lra).
+  set (E0 := mvec 9 _ _ 0%nat). set (E1 := mvec 9 _ _ 1%nat). set (E2 := mvec 9 _ _ 2%nat).
+  match goal with |- is_derive (fun e => (lon + e * E1 / ?K0 * (180 / PI) + - (e * y1) / @?K1 e * (180 / PI) - lon) * @?Q e) 0 _ =>
+    apply (is_derive_ext (fun e => e * ((E1 * / K0 * (180 / PI) - y1 * / K1 e * (180 / PI)) * Q e)));
+    [ intro e; cbv beta; unfold Rdiv; eqR; ring | apply is_derive_e_times ]
+  end.
+  - autounfold with state_diff_db correct3d_db perturb_pva_db. auto_derive.
+    clean0E. rewrite ?Rplus_0_r. clean0E.
+    replace (1 / 2 * (lat + lat)) with lat by field.
+    assert (Hc2 : 0 < 1 + - (sin (lat * (PI / 180)) * sin (lat * (PI / 180))))
+      by (pose proof (sc1 (lat * (PI / 180))); nra).
+    assert (Hk : (6378137 * / sqrt (1 + - (66943799901413 / 10000000000000000 *
+                   (sin (lat * (PI / 180)) * sin (lat * (PI / 180))))) + alt) *
+                 sqrt (1 + - (sin (lat * (PI / 180)) * sin (lat * (PI / 180)))) <> 0).
+    { apply Rmult_integral_contrapositive_currified; apply Rgt_not_eq; [exact Hre|].
+      apply sqrt_lt_R0. exact Hc2. }
+    splits; try exact I; try exact Hc2; try exact Hk;
+      try (apply Rgt_not_eq); try (exact (W_pos' _)); try (exact (sqrtW_pos _)); try exact Hrn.
+  - cbv beta. clean0E. rewrite ?Rplus_0_r. clean0E.
+    autounfold with state_diff_db correct3d_db perturb_pva_db.
+    subst E0 E1 E2. unfE. try eqR. ring.
+Qed.
+End Restore3D.
+
+(** the same for the no-altitude mode: E = T_out2d(pva) y has zero down / VD components *)
+(** component [f] of sim.perturb_pva(pva, e * E), E = T_out2d(pva) y *)
+Definition pert2 (f : R -> R -> R -> R -> R -> R -> R -> R -> R -> R -> R -> R -> R -> R -> R -> R -> R -> R -> R)
+  (lat lon alt VN VE VD roll pitch heading y0 y1 y2 y3 y4 y5 y6 e : R) : R :=
+  let E := mvec 7 (Tout2 lat lon alt VN VE VD roll pitch heading) (vec7 y0 y1 y2 y3 y4 y5 y6) in
+  f lat lon alt VN VE VD roll pitch heading (e * E 0%nat) (e * E 1%nat) (e * E 2%nat) (e * E 3%nat)
+    (e * E 4%nat) (e * E 5%nat) (e * E 6%nat) (e * E 7%nat) (e * E 8%nat).
+
+(** component [c] of correct_pva(perturb_pva(pva, e T2d y), e y) *)
+Definition pert_corr2 (c : R -> R -> R -> R -> R -> R -> R -> R -> R -> R -> R -> R -> R -> R -> R -> R -> R)
+  (lat lon alt VN VE VD roll pitch heading y0 y1 y2 y3 y4 y5 y6 e : R) : R :=
+  c (pert2 perturb_pva_lat lat lon alt VN VE VD roll pitch heading y0 y1 y2 y3 y4 y5 y6 e)
+    (pert2 perturb_pva_lon lat lon alt VN VE VD roll pitch heading y0 y1 y2 y3 y4 y5 y6 e)
+    (pert2 perturb_pva_alt lat lon alt VN VE VD roll pitch heading y0 y1 y2 y3 y4 y5 y6 e)
+    (pert2 perturb_pva_VN lat lon alt VN VE VD roll pitch heading y0 y1 y2 y3 y4 y5 y6 e)
+    (pert2 perturb_pva_VE lat lon alt VN VE VD roll pitch heading y0 y1 y2 y3 y4 y5 y6 e)
+    (pert2 perturb_pva_VD lat lon alt VN VE VD roll pitch heading y0 y1 y2 y3 y4 y5 y6 e)
+    (pert2 perturb_pva_roll lat lon alt VN VE VD roll pitch heading y0 y1 y2 y3 y4 y5 y6 e)
+    (pert2 perturb_pva_pitch lat lon alt VN VE VD roll pitch heading y0 y1 y2 y3 y4 y5 y6 e)
+    (pert2 perturb_pva_heading lat lon alt VN VE VD roll pitch heading y0 y1 y2 y3 y4 y5 y6 e)
+    (e * y0) (e * y1) (e * y2) (e * y3) (e * y4) (e * y5) (e * y6).
+
+(** component [d] of compute_state_difference(correct_pva(perturb_pva(pva, e T2d y), e y), pva) *)
+Definition restore2
+  (d : R -> R -> R -> R -> R -> R -> R -> R -> R -> R -> R -> R -> R -> R -> R -> R -> R -> R -> R)
+  (lat lon alt VN VE VD roll pitch heading y0 y1 y2 y3 y4 y5 y6 e : R) : R :=
+  d (pert_corr2 correct2d_lat lat lon alt VN VE VD roll pitch heading y0 y1 y2 y3 y4 y5 y6 e)
+    (pert_corr2 correct2d_lon lat lon alt VN VE VD roll pitch heading y0 y1 y2 y3 y4 y5 y6 e)
+    (pert_corr2 correct2d_alt lat lon alt VN VE VD roll pitch heading y0 y1 y2 y3 y4 y5 y6 e)
+    (pert_corr2 correct2d_VN lat lon alt VN VE VD roll pitch heading y0 y1 y2 y3 y4 y5 y6 e)
+    (pert_corr2 correct2d_VE lat lon alt VN VE VD roll pitch heading y0 y1 y2 y3 y4 y5 y6 e)
+    (pert_corr2 correct2d_VD lat lon alt VN VE VD roll pitch heading y0 y1 y2 y3 y4 y5 y6 e)
+    (pert_corr2 correct2d_roll lat lon alt VN VE VD roll pitch heading y0 y1 y2 y3 y4 y5 y6 e)
+    (pert_corr2 correct2d_pitch lat lon alt VN VE VD roll pitch heading y0 y1 y2 y3 y4 y5 y6 e)
+    (pert_corr2 correct2d_heading lat lon alt VN VE VD roll pitch heading y0 y1 y2 y3 y4 y5 y6 e)
+    lat lon alt VN VE VD roll pitch heading.
+
+Section Restore2D.
+Variables lat lon alt VN VE VD roll pitch heading : R.
+Variables y0 y1 y2 y3 y4 y5 y6 : R.
+Hypothesis Hlat : -90 < lat < 90.
+Hypothesis Halt : -1000000 <= alt.
+Hypothesis Hroll : -180 < roll < 180.
+Hypothesis Hpitch : -90 < pitch < 90.
+Hypothesis Hheading : -180 < heading < 180.
+
+Let PC (c : R -> R -> R -> R -> R -> R -> R -> R -> R -> R -> R -> R -> R -> R -> R -> R -> R) :=
+  pert_corr2 c lat lon alt VN VE VD roll pitch heading y0 y1 y2 y3 y4 y5 y6.
+Let RS (d : R -> R -> R -> R -> R -> R -> R -> R -> R -> R -> R -> R -> R -> R -> R -> R -> R -> R -> R) :=
+  restore2 d lat lon alt VN VE VD roll pitch heading y0 y1 y2 y3 y4 y5 y6.
+
+Ltac unfE := cbv [mvec sumN Tout2 vec7]; autounfold with errstate_mat; autounfold with to_output2d_db.
+Ltac unfP := unfold PC, pert_corr2, pert2, perturb_pva_lat, perturb_pva_lon, perturb_pva_alt, perturb_pva_VN,
+  perturb_pva_VE, perturb_pva_VD, perturb_pva_roll, perturb_pva_pitch, perturb_pva_heading; cbv zeta.
+
+Lemma pc2_at0 :
+  PC correct2d_lat 0 = lat /\ PC correct2d_lon 0 = lon /\ PC correct2d_alt 0 = alt /\
+  PC correct2d_VN 0 = VN /\ PC correct2d_VE 0 = VE /\ PC correct2d_VD 0 = VD /\
+  PC correct2d_roll 0 = roll /\ PC correct2d_pitch 0 = pitch /\ PC correct2d_heading 0 = heading.
+Proof.
+  unfP. unfold Rdiv. rewrite !Rmult_0_l, !Rplus_0_r, !Rminus_0_r.
+  exact (proj2 (correct_zero_is_identity lat lon alt VN VE VD roll pitch heading Hroll Hpitch Hheading)).
+Qed.
+
+Lemma pc2_VN : is_derive (PC correct2d_VN) 0 0.
+Proof.
+  unfP. unfold correct2d_VN. ray_facts y4 y5 y6. to_ray y4 y5 y6.
+  auto_derive; [ray_ex|]. ray_vals. unfE. ring.
+Qed.
+
+Lemma pc2_VE : is_derive (PC correct2d_VE) 0 0.
+Proof.
+  unfP. unfold correct2d_VE. ray_facts y4 y5 y6. to_ray y4 y5 y6.
+  auto_derive; [ray_ex|]. ray_vals. unfE. ring.
+Qed.
+
+Lemma pc2_VD : is_derive (PC correct2d_VD) 0 0.
+Proof.
+  unfP. unfold correct2d_VD. ray_facts y4 y5 y6. to_ray y4 y5 y6.
+  auto_derive; [ray_ex|]. ray_vals. unfE. ring.
+Qed.
+
+Lemma pc2_alt : is_derive (PC correct2d_alt) 0 0.
+Proof.
+  unfP. unfold correct2d_alt. auto_derive; [exact I|]. unfE. ring.
+Qed.
+
+Lemma pc2_roll : is_derive (PC correct2d_roll) 0 0.
+Proof.
+  unfP. unfold correct2d_roll, euler_roll. autounfold with correct2d_db.
+  ray_facts y4 y5 y6.
+  pose proof (cos_d2r_pos pitch Hpitch) as Hcp.
+  try set (E6 := mvec 7 _ _ 6%nat). try set (E7 := mvec 7 _ _ 7%nat). try set (E8 := mvec 7 _ _ 8%nat).
+  eapply is_derive_atan2_deg.
+  - to_ray y4 y5 y6. auto_derive; [ray_ex|]. reflexivity.
+  - to_ray y4 y5 y6. auto_derive; [ray_ex|]. reflexivity.
+  - cbv beta. ray_vals. rewrite !Rmult_0_l, !Rplus_0_r.
+    destruct (polar_offcut _ (d2r_in_pi roll Hroll)) as [Hc|Hs]; [left|right]; nra.
+  - cbv beta. ray_vals. rewrite !Rmult_0_l, !Rplus_0_r. try subst E6; try subst E7; try subst E8. unfE.
+    trig_abbrev roll pitch heading. pose proof PI_neq0 as Hpi.
+    match goal with |- _ = _ / ?D * _ => replace D with (cp * cp) by (ring [Hr]) end.
+    field_simplify_eq; [ring [Hr Hp Hh] | split; [assumption | lra]].
+Qed.
+
+Lemma pc2_heading : is_derive (PC correct2d_heading) 0 0.
+Proof.
+  unfP. unfold correct2d_heading, euler_heading. autounfold with correct2d_db.
+  ray_facts y4 y5 y6.
+  pose proof (cos_d2r_pos pitch Hpitch) as Hcp.
+  try set (E6 := mvec 7 _ _ 6%nat). try set (E7 := mvec 7 _ _ 7%nat). try set (E8 := mvec 7 _ _ 8%nat).
+  eapply is_derive_atan2_deg.
+  - to_ray y4 y5 y6. auto_derive; [ray_ex|]. reflexivity.
+  - to_ray y4 y5 y6. auto_derive; [ray_ex|]. reflexivity.
+  - cbv beta. ray_vals. rewrite !Rmult_0_l, !Rplus_0_r.
+    destruct (polar_offcut _ (d2r_in_pi heading Hheading)) as [Hc|Hs]; [left|right]; nra.
+  - cbv beta. ray_vals. rewrite !Rmult_0_l, !Rplus_0_r. try subst E6; try subst E7; try subst E8. unfE.
+    trig_abbrev roll pitch heading. pose proof PI_neq0 as Hpi.
+    match goal with |- _ = _ / ?D * _ => replace D with (cp * cp) by (ring [Hh]) end.
+    field_simplify_eq; [ring [Hr Hp Hh] | split; [assumption | lra]].
+Qed.
+
+Lemma pc2_pitch : is_derive (PC correct2d_pitch) 0 0.
+Proof.
+  unfP. unfold correct2d_pitch, euler_pitch. autounfold with correct2d_db.
+  ray_facts y4 y5 y6.
+  pose proof (cos_d2r_pos pitch Hpitch) as Hcp.
+  try set (E6 := mvec 7 _ _ 6%nat). try set (E7 := mvec 7 _ _ 7%nat). try set (E8 := mvec 7 _ _ 8%nat).
+  eapply is_derive_atan2_deg.
+  - to_ray y4 y5 y6. auto_derive; [ray_ex|]. reflexivity.
+  - to_ray y4 y5 y6.
+    auto_derive; [ray_ex; ray_vals; rewrite !Rmult_0_l, !Rplus_0_r; trig_abbrev roll pitch heading;
+                  match goal with |- 0 < ?E => replace E with (cp * cp) by (ring [Hr]) end; nra
+                 | reflexivity].
+  - cbv beta. ray_vals. rewrite !Rmult_0_l, !Rplus_0_r. left. apply sqrt_lt_R0.
+    trig_abbrev roll pitch heading.
+    match goal with |- 0 < ?E => replace E with (cp * cp) by (ring [Hr]) end; nra.
+  - cbv beta. ray_vals. rewrite !Rmult_0_l, !Rplus_0_r. try subst E6; try subst E7; try subst E8. unfE.
+    trig_abbrev roll pitch heading. pose proof PI_neq0 as Hpi.
+    repeat match goal with |- context [sqrt ?E] =>
+      replace (sqrt E) with cp by
+        (symmetry; replace E with (cp * cp) by (ring [Hr]); apply sqrt_square; lra) end.
+    match goal with |- _ = _ / ?D * _ => replace D with 1 by (ring [Hp]) end.
+    field_simplify_eq; [ring [Hr Hp Hh] | split; [assumption | lra]].
+Qed.
+
+(** *** compute_state_difference(correct_pva(perturb_pva(pva, e T2d y), e y), pva): derivative 0 at e = 0 *)
+
+Lemma rs2_VN : is_derive (RS state_diff_VN) 0 0.
+Proof. unfold RS, restore2, state_diff_VN. apply is_derive_minus_const. exact pc2_VN. Qed.
+
+Lemma rs2_VE : is_derive (RS state_diff_VE) 0 0.
+Proof. unfold RS, restore2, state_diff_VE. apply is_derive_minus_const. exact pc2_VE. Qed.
+
+Lemma rs2_VD : is_derive (RS state_diff_VD) 0 0.
+Proof. unfold RS, restore2, state_diff_VD. apply is_derive_minus_const. exact pc2_VD. Qed.
+
+Lemma rs2_down : is_derive (RS state_diff_down) 0 0.
+Proof.
+  unfold RS, restore2, state_diff_down. pose proof pc2_alt as H. unfold PC in H.
+  auto_derive; [eexists; exact H|]. derive_val H. ring.
+Qed.
+
+Lemma rs2_roll : is_derive (RS state_diff_roll) 0 0.
+Proof.
+  unfold RS, restore2, state_diff_roll.
+  destruct pc2_at0 as [_ [_ [_ [_ [_ [_ [Hr0 [Hp0 Hh0]]]]]]]]. unfold PC in *.
+  apply (is_derive_wrap180 (fun e => _ e - roll)).
+  - apply is_derive_minus_const. exact pc2_roll.
+  - rewrite Hr0. ring.
+Qed.
+
+Lemma rs2_pitch : is_derive (RS state_diff_pitch) 0 0.
+Proof.
+  unfold RS, restore2, state_diff_pitch.
+  destruct pc2_at0 as [_ [_ [_ [_ [_ [_ [Hr0 [Hp0 Hh0]]]]]]]]. unfold PC in *.
+  apply (is_derive_wrap180 (fun e => _ e - pitch)).
+  - apply is_derive_minus_const. exact pc2_pitch.
+  - rewrite Hp0. ring.
+Qed.
+
+Lemma rs2_heading : is_derive (RS state_diff_heading) 0 0.
+Proof.
+  unfold RS, restore2, state_diff_heading.
+  destruct pc2_at0 as [_ [_ [_ [_ [_ [_ [Hr0 [Hp0 Hh0]]]]]]]]. unfold PC in *.
+  apply (is_derive_wrap180 (fun e => _ e - heading)).
+  - apply is_derive_minus_const. exact pc2_heading.
+  - rewrite Hh0. ring.
+Qed.
+
+Ltac clean0E :=
+  repeat match goal with |- context [lat + 0 * ?E0 / ?K0 * (180 / PI)] =>
+    replace (lat + 0 * E0 / K0 * (180 / PI)) with lat by (unfold Rdiv; ring) end;
+  repeat match goal with |- context [lat + 0 * ?E0 * / ?K0 * (180 / PI)] =>
+    replace (lat + 0 * E0 * / K0 * (180 / PI)) with lat by (unfold Rdiv; ring) end;
+  repeat match goal with |- context [alt - 0 * ?E2] => replace (alt - 0 * E2) with alt by ring end;
+  repeat match goal with |- context [alt + - (0 * ?E2)] => replace (alt + - (0 * E2)) with alt by ring end;
+  repeat match goal with |- context [lat + - (0 * y0) / ?K0 * (180 / PI)] =>
+    replace (lat + - (0 * y0) / K0 * (180 / PI)) with lat by (unfold Rdiv; ring) end;
+  repeat match goal with |- context [lat + - (0 * y0) * / ?K0 * (180 / PI)] =>
+    replace (lat + - (0 * y0) * / K0 * (180 / PI)) with lat by (unfold Rdiv; ring) end;
+  repeat match goal with |- context [alt - - (0 * y2)] => replace (alt - - (0 * y2)) with alt by ring end;
+  repeat match goal with |- context [alt + - - (0 * y2)] => replace (alt + - - (0 * y2)) with alt by ring end.
+
+Lemma rs2_north : is_derive (RS state_diff_north) 0 0.
+Proof.
+  unfold RS, restore2, state_diff_north. unfold pert_corr2, pert2. cbv zeta.
+  unfold correct2d_lat, correct2d_alt, perturb_pva_lat, perturb_pva_alt.
+  pose proof (rn_pos (lat * (PI/180)) alt Halt) as Hrn.
+  set (E0 := mvec 7 _ _ 0%nat). set (E2 := mvec 7 _ _ 2%nat).
+  match goal with |- is_derive (fun e => (lat + e * E0 / ?K0 * (180 / PI) + - (e * y0) / @?K1 e * (180 / PI) - lat) * @?Q e) 0 _ =>
+    apply (is_derive_ext (fun e => e * ((E0 * / K0 * (180 / PI) - y0 * / K1 e * (180 / PI)) * Q e)));
+    [ intro e; cbv beta; unfold Rdiv; eqR; ring | apply is_derive_e_times ]
+  end.
+  - autounfold with state_diff_db correct2d_db perturb_pva_db. auto_derive.
+    clean0E. rewrite ?Rplus_0_r. clean0E.
+    splits; try exact I; try (apply Rgt_not_eq); try (exact (W_pos' _)); try (exact (sqrtW_pos _));
+      exact Hrn.
+  - cbv beta. clean0E. rewrite ?Rplus_0_r. clean0E.
+    autounfold with state_diff_db correct2d_db perturb_pva_db.
+    subst E0 E2. unfE. ring.
+Qed.
+
+Lemma rs2_east : is_derive (RS state_diff_east) 0 0.
+Proof.
+  unfold RS, restore2, state_diff_east. unfold pert_corr2, pert2. cbv zeta.
+  unfold correct2d_lat, correct2d_lon, correct2d_alt, perturb_pva_lat, perturb_pva_lon, perturb_pva_alt.
+  pose proof (rn_pos (lat * (PI/180)) alt Halt) as Hrn.
+  pose proof (re_pos (lat * (PI/180)) alt Halt) as Hre.
+  pose proof (cos_d2r_pos lat Hlat) as Hcos.
+  assert (Hs : sqrt (1 - sin (lat * (PI/180)) * sin (lat * (PI/180))) = cos (lat * (PI/180)))
+    by (apply sqrt_1msin2; lra).
+  set (E0 := mvec 7 _ _ 0%nat). set (E1 := mvec 7 _ _ 1%nat). set (E2 := mvec 7 _ _ 2%nat).
+  match goal with |- is_derive (fun e => (lon + e * E1 / ?K0 * (180 / PI) + - (e * y1) / @?K1 e * (180 / PI) - lon) * @?Q e) 0 _ =>
+    apply (is_derive_ext (fun e => e * ((E1 * / K0 * (180 / PI) - y1 * / K1 e * (180 / PI)) * Q e)));
+    [ intro e; cbv beta; unfold Rdiv; eqR; ring | apply is_derive_e_times ]
+  end.
+  - autounfold with state_diff_db correct2d_db perturb_pva_db. auto_derive.
+    clean0E. rewrite ?Rplus_0_r. clean0E.
+    replace (1 / 2 * (lat + lat)) with lat by field.
+    assert (Hc2 : 0 < 1 + - (sin (lat * (PI / 180)) * sin (lat * (PI / 180))))
+      by (pose proof (sc1 (lat * (PI / 180))); nra).
+    assert (Hk : (6378137 * / sqrt (1 + - (66943799901413 / 10000000000000000 *
+                   (sin (lat * (PI / 180)) * sin (lat * (PI / 180))))) + alt) *
+                 sqrt (1 + - (sin (lat * (PI / 180)) * sin (lat * (PI / 180)))) <> 0).
+    { apply Rmult_integral_contrapositive_currified; apply Rgt_not_eq; [exact Hre|].
+      apply sqrt_lt_R0. exact Hc2. }
+    splits; try exact I; try exact Hc2; try exact Hk;
+      try (apply Rgt_not_eq); try (exact (W_pos' _)); try (exact (sqrtW_pos _)); try exact Hrn.
+  - cbv beta. clean0E. rewrite ?Rplus_0_r. clean0E.
+    autounfold with state_diff_db correct2d_db perturb_pva_db.
+    subst E0 E1 E2. unfE. try eqR. ring.
+Qed.
+End Restore2D.
+
+(** ** C05 (c): the combined statements *)
+
+Lemma perturb_then_correct_3d lat lon alt VN VE VD roll pitch heading y0 y1 y2 y3 y4 y5 y6 y7 y8 :
+  -90 < lat < 90 -> -1000000 <= alt -> -180 < roll < 180 -> -90 < pitch < 90 -> -180 < heading < 180 ->
+  let RS := fun d => restore3 d lat lon alt VN VE VD roll pitch heading y0 y1 y2 y3 y4 y5 y6 y7 y8 in
+  is_derive (RS state_diff_north) 0 0 /\ is_derive (RS state_diff_east) 0 0 /\
+  is_derive (RS state_diff_down) 0 0 /\ is_derive (RS state_diff_VN) 0 0 /\
+  is_derive (RS state_diff_VE) 0 0 /\ is_derive (RS state_diff_VD) 0 0 /\
+  is_derive (RS state_diff_roll) 0 0 /\ is_derive (RS state_diff_pitch) 0 0 /\
+  is_derive (RS state_diff_heading) 0 0.
+Proof.
+  intros Hlat Halt Hroll Hpitch Hheading. cbv zeta.
+  splits; [apply rs3_north | apply rs3_east | apply rs3_down | apply rs3_VN | apply rs3_VE
+          | apply rs3_VD | apply rs3_roll | apply rs3_pitch | apply rs3_heading]; assumption.
+Qed.
+
+Lemma perturb_then_correct_2d lat lon alt VN VE VD roll pitch heading y0 y1 y2 y3 y4 y5 y6 :
+  -90 < lat < 90 -> -1000000 <= alt -> -180 < roll < 180 -> -90 < pitch < 90 -> -180 < heading < 180 ->
+  let RS := fun d => restore2 d lat lon alt VN VE VD roll pitch heading y0 y1 y2 y3 y4 y5 y6 in
+  is_derive (RS state_diff_north) 0 0 /\ is_derive (RS state_diff_east) 0 0 /\
+  is_derive (RS state_diff_down) 0 0 /\ is_derive (RS state_diff_VN) 0 0 /\
+  is_derive (RS state_diff_VE) 0 0 /\ is_derive (RS state_diff_VD) 0 0 /\
+  is_derive (RS state_diff_roll) 0 0 /\ is_derive (RS state_diff_pitch) 0 0 /\
+  is_derive (RS state_diff_heading) 0 0.
+Proof.
+  intros Hlat Halt Hroll Hpitch Hheading. cbv zeta.
+  splits; [apply rs2_north | apply rs2_east | apply rs2_down | apply rs2_VN | apply rs2_VE
+          | apply rs2_VD | apply rs2_roll | apply rs2_pitch | apply rs2_heading]; assumption.
+Qed.
+
+(** the 3D statement for an ARBITRARY output-space error E, corrected with y = T_inv(pva) E *)
+Lemma Tout_Tinv_vec lat lon alt VN VE VD roll pitch heading E0 E1 E2 E3 E4 E5 E6 E7 E8 :
+  cos (pitch * (PI / 180)) <> 0 ->
+  let Y := mvec 9 (Tinv3 lat lon alt VN VE VD roll pitch heading) (vec9 E0 E1 E2 E3 E4 E5 E6 E7 E8) in
+  forall k, (k < 9)%nat ->
+  mvec 9 (Tout3 lat lon alt VN VE VD roll pitch heading)
+    (vec9 (Y 0%nat) (Y 1%nat) (Y 2%nat) (Y 3%nat) (Y 4%nat) (Y 5%nat) (Y 6%nat) (Y 7%nat) (Y 8%nat)) k =
+  vec9 E0 E1 E2 E3 E4 E5 E6 E7 E8 k.
+Proof.
+  intros Hc Y k Hk. subst Y. pose proof PI_neq0 as Hpi.
+  assert (Hh : sin (heading * (PI / 180)) * sin (heading * (PI / 180)) =
+               1 - cos (heading * (PI / 180)) * cos (heading * (PI / 180)))
+    by (pose proof (sc1 (heading * (PI / 180))); lra).
+  assert (Hp : sin (pitch * (PI / 180)) * sin (pitch * (PI / 180)) =
+               1 - cos (pitch * (PI / 180)) * cos (pitch * (PI / 180)))
+    by (pose proof (sc1 (pitch * (PI / 180))); lra).
+  idx k; mat_entry; cbv [vec9];
+    first [ ring | field_simplify_eq; [ring [Hh Hp] | try split; assumption] ].
+Qed.
+
+Definition restore3E
+  (d : R -> R -> R -> R -> R -> R -> R -> R -> R -> R -> R -> R -> R -> R -> R -> R -> R -> R -> R)
+  (lat lon alt VN VE VD roll pitch heading E0 E1 E2 E3 E4 E5 E6 E7 E8 e : R) : R :=
+  let Y := mvec 9 (Tinv3 lat lon alt VN VE VD roll pitch heading) (vec9 E0 E1 E2 E3 E4 E5 E6 E7 E8) in
+  let P := fun f : R -> R -> R -> R -> R -> R -> R -> R -> R -> R -> R -> R -> R -> R -> R -> R -> R -> R -> R =>
+    f lat lon alt VN VE VD roll pitch heading (e * E0) (e * E1) (e * E2) (e * E3) (e * E4) (e * E5)
+      (e * E6) (e * E7) (e * E8) in
+  let C := fun c : R -> R -> R -> R -> R -> R -> R -> R -> R -> R -> R -> R -> R -> R -> R -> R -> R -> R -> R =>
+    c (P perturb_pva_lat) (P perturb_pva_lon) (P perturb_pva_alt) (P perturb_pva_VN) (P perturb_pva_VE)
+      (P perturb_pva_VD) (P perturb_pva_roll) (P perturb_pva_pitch) (P perturb_pva_heading)
+      (e * Y 0%nat) (e * Y 1%nat) (e * Y 2%nat) (e * Y 3%nat) (e * Y 4%nat) (e * Y 5%nat)
+      (e * Y 6%nat) (e * Y 7%nat) (e * Y 8%nat) in
+  d (C correct3d_lat) (C correct3d_lon) (C correct3d_alt) (C correct3d_VN) (C correct3d_VE) (C correct3d_VD)
+    (C correct3d_roll) (C correct3d_pitch) (C correct3d_heading)
+    lat lon alt VN VE VD roll pitch heading.
+
+Lemma restore3E_is_restore3 d lat lon alt VN VE VD roll pitch heading E0 E1 E2 E3 E4 E5 E6 E7 E8 :
+  cos (pitch * (PI / 180)) <> 0 ->
+  let Y := mvec 9 (Tinv3 lat lon alt VN VE VD roll pitch heading) (vec9 E0 E1 E2 E3 E4 E5 E6 E7 E8) in
+  forall e,
+  restore3 d lat lon alt VN VE VD roll pitch heading
+    (Y 0%nat) (Y 1%nat) (Y 2%nat) (Y 3%nat) (Y 4%nat) (Y 5%nat) (Y 6%nat) (Y 7%nat) (Y 8%nat) e =
+  restore3E d lat lon alt VN VE VD roll pitch heading E0 E1 E2 E3 E4 E5 E6 E7 E8 e.
+Proof.
+  intros Hc Y e.
+  pose proof (Tout_Tinv_vec lat lon alt VN VE VD roll pitch heading E0 E1 E2 E3 E4 E5 E6 E7 E8 Hc) as H.
+  cbv zeta in H. fold Y in H.
+  unfold restore3, restore3E, pert_corr3, pert3. cbv zeta. fold Y.
+  rewrite (H 0%nat), (H 1%nat), (H 2%nat), (H 3%nat), (H 4%nat), (H 5%nat), (H 6%nat), (H 7%nat), (H 8%nat) by lia.
+  reflexivity.
+Qed.
+
+Lemma perturb_then_correct_3d_any_error lat lon alt VN VE VD roll pitch heading E0 E1 E2 E3 E4 E5 E6 E7 E8 :
+  -90 < lat < 90 -> -1000000 <= alt -> -180 < roll < 180 -> -90 < pitch < 90 -> -180 < heading < 180 ->
+  let RS := fun d => restore3E d lat lon alt VN VE VD roll pitch heading E0 E1 E2 E3 E4 E5 E6 E7 E8 in
+  is_derive (RS state_diff_north) 0 0 /\ is_derive (RS state_diff_east) 0 0 /\
+  is_derive (RS state_diff_down) 0 0 /\ is_derive (RS state_diff_VN) 0 0 /\
+  is_derive (RS state_diff_VE) 0 0 /\ is_derive (RS state_diff_VD) 0 0 /\
+  is_derive (RS state_diff_roll) 0 0 /\ is_derive (RS state_diff_pitch) 0 0 /\
+  is_derive (RS state_diff_heading) 0 0.
+Proof.
+  intros Hlat Halt Hroll Hpitch Hheading. cbv zeta.
+  assert (Hc : cos (pitch * (PI / 180)) <> 0) by (apply Rgt_not_eq, cos_d2r_pos; exact Hpitch).
+  set (Y := mvec 9 (Tinv3 lat lon alt VN VE VD roll pitch heading) (vec9 E0 E1 E2 E3 E4 E5 E6 E7 E8)).
+  destruct (perturb_then_correct_3d lat lon alt VN VE VD roll pitch heading
+              (Y 0%nat) (Y 1%nat) (Y 2%nat) (Y 3%nat) (Y 4%nat) (Y 5%nat) (Y 6%nat) (Y 7%nat) (Y 8%nat)
+              Hlat Halt Hroll Hpitch Hheading) as [H0 [H1 [H2 [H3 [H4 [H5 [H6 [H7 H8]]]]]]]].
+  splits; (eapply is_derive_ext; [intro e; apply (restore3E_is_restore3 _ lat lon alt VN VE VD roll pitch heading
+             E0 E1 E2 E3 E4 E5 E6 E7 E8 Hc e) | assumption]).
+Qed.
